@@ -1,6 +1,6 @@
 /-
   C20 — source ties for the basic benchmark functions of `benchmarks/_optproblems.py` that are pure
-  elementwise numpy code: `OneMax.f`, `Sphere.f`, `Schwefe1_2.f`, `Rosenbrock.f`, `Rastrigin.f`.
+  elementwise numpy code: `OneMax.f`, `Sphere.f`, `Schwefe1_2.f`, `Rosenbrock.f`, `Rastrigin.f`, `Griewank.f`.
   `TFV/Generated/Src/Bench_*_f.lean` are re-translated from /repo on every run (harness/extract/np2lean.py, floats
   read as field elements, `cos(2πa)` a function parameter); on every rectangular population they compute, row by
   row, the functions of `TFV.Model.Bench` whose lower bounds and optima the C20 theorems prove.
@@ -12,6 +12,8 @@ import TFV.Generated.Src.Bench_Sphere_f
 import TFV.Generated.Src.Bench_Schwefel12_f
 import TFV.Generated.Src.Bench_Rosenbrock_f
 import TFV.Generated.Src.Bench_Rastrigin_f
+import TFV.Generated.Src.Bench_Griewank_f
+import TFV.Properties.Bench
 import Mathlib.Tactic.Ring
 
 namespace TFV.Properties.Src.BenchKernels
@@ -30,6 +32,12 @@ theorem zipWith_map_map (f : Rat → Rat → Rat) (g h : Rat → Rat) (r : List 
 
 theorem zipWith_rows (G H : List Rat → List Rat) (rows : List (List Rat)) (f : Rat → Rat → Rat) :
     List.zipWith (List.zipWith f) (rows.map G) (rows.map H) = rows.map fun r => List.zipWith f (G r) (H r) := by
+  induction rows with
+  | nil => rfl
+  | cons a as ih => simp [ih]
+
+theorem zipWith_rows_vec (G H : List Rat → Rat) (rows : List (List Rat)) (f : Rat → Rat → Rat) :
+    List.zipWith f (rows.map G) (rows.map H) = rows.map fun r => f (G r) (H r) := by
   induction rows with
   | nil => rfl
   | cons a as ih => simp [ih]
@@ -137,5 +145,41 @@ example : Bench_Rosenbrock_f { ncols := 3, rows := [[1, 1, 1], [0, 0, 0]] } = so
     ∧ Bench_Sphere_f { ncols := 2, rows := [[3, 4]] } = some [25]
     ∧ Bench_Schwefel12_f { ncols := 3, rows := [[1, 2, 3]] } = some [46] := by
   refine ⟨?_, ?_, ?_⟩ <;> decide +kernel
+
+/-- `Griewank.f` = `griewank csi` on every row, `csi i a` standing for `cos(a / sqrt(i+1))` (column `i`): the sum of `a²/4000`, minus the
+    product of the cosines, plus one -/
+theorem C20_src_griewank (csi : Nat → Rat → Rat) (m : Mat) : Bench_Griewank_f csi m = some (m.rows.map (griewank csi)) := by
+  unfold Bench_Griewank_f
+  simp only [NpQ.vzip, sumRows, prodRows, NpQ.map, mapIdxCols, List.length_map, if_true, List.map_map, bind, Option.bind, pure]
+  congr 1
+  rw [zipWith_rows_vec]
+  simp only [List.map_map]
+  apply List.map_congr_left
+  intro r _
+  simp only [Function.comp, griewank, Bench.sum, Bench.prod]
+  congr 3
+  rw [List.map_map]
+  apply List.map_congr_left
+  intro a _
+  simp only [Function.comp]
+  ring
+
+/-- the documented optimum read off the TRANSLATED source of `Griewank.f`: for any `csi` with the range of a cosine and `csi i 0 = 1`,
+    every value the code returns is non-negative, and a population of zero rows is mapped to zeros -/
+theorem C20_src_griewank_optimum (csi : Nat → Rat → Rat) (h1 : ∀ i a, -1 ≤ csi i a ∧ csi i a ≤ 1) (h0 : ∀ i, csi i 0 = 1) (m : Mat) :
+    (∃ ys, Bench_Griewank_f csi m = some ys ∧ ys.length = m.rows.length ∧ ∀ y ∈ ys, 0 ≤ y) ∧
+    ∀ k D : Nat, Bench_Griewank_f csi { ncols := D, rows := List.replicate k (List.replicate D 0) } = some (List.replicate k 0) := by
+  refine ⟨⟨_, C20_src_griewank csi m, by simp, ?_⟩, ?_⟩
+  · intro y hy
+    obtain ⟨r, _, rfl⟩ := List.mem_map.mp hy
+    exact (TFV.Bench.C20_griewank csi h1 h0 r).1
+  · intro k D
+    rw [C20_src_griewank]
+    simp only [List.map_replicate]
+    have := (TFV.Bench.C20_griewank csi h1 h0 (List.replicate D 0)).2
+    simp only [List.length_replicate] at this
+    rw [this]
+
+example : Bench_Griewank_f (fun _ a => if a = 0 then 1 else 0) { ncols := 2, rows := [[0, 0], [20, 60]] } = some [0, 2] := by decide +kernel
 
 end TFV.Properties.Src.BenchKernels
